@@ -240,6 +240,9 @@ func (c *Conn) Close() error {
 	return c.CloseErr
 }
 
+// Done is closed when the connection is closed (a blocked socket operation ends then).
+func (c *Conn) Done() <-chan struct{} { return c.closed }
+
 func (c *Conn) Closed() bool {
 	select {
 	case <-c.closed:
